@@ -18,6 +18,7 @@ Linear Predictive Coding (LPC) module
 """
 
 from __future__ import division
+from fractions import Fraction
 from functools import reduce
 import operator
 
@@ -424,7 +425,11 @@ def parcor_stable(filt):
   try:
     den = filt.denpoly
     if den[0] != 1: # Term by term (exact) division, not "times 1. / den[0]"
-      den = den / den[0]
+      gain = den[0]
+      if all(isinstance(v, (int, Fraction)) for k, v in den.terms()):
+        gain = Fraction(gain) # All exact: "int / int" would be a float
+      den = den / gain
+      den[0] = 1 # Not "gain / gain", whose type might not mix with the others
     return all(abs(k) < 1 for k in parcor(ZFilter(den)))
   except ParCorError:
     return False
